@@ -31,6 +31,15 @@ _MECARD_ESCAPE = {
 _VCARD_ESCAPE = {
     ord(','): '\\,',
     ord(';'): '\\;',
+    # A value must not break out of its content line
+    ord('\n'): '\\n',
+    ord('\r'): None,
+}
+
+# Line breaks only (for structured values where ";" is the component delimiter)
+_VCARD_ESCAPE_NEWLINE = {
+    ord('\n'): '\\n',
+    ord('\r'): None,
 }
 
 
@@ -223,7 +232,7 @@ def make_mecard(name, reading=None, email=None, phone=None, videophone=None,
                                           country=country))
 
 
-_looks_like_datetime = re.compile(r'^\d{4}-\d{2}-\d{2}(?:T\d{2}:\d{2}:\d{2}(?:(?:-?\d{2}:\d{2})|Z)?)?$').match
+_looks_like_datetime = re.compile(r'^\d{4}-\d{2}-\d{2}(?:T\d{2}:\d{2}:\d{2}(?:(?:-?\d{2}:\d{2})|Z)?)?\Z').match
 
 
 def make_vcard_data(name, displayname, email=None, phone=None, fax=None,
@@ -301,7 +310,7 @@ def make_vcard_data(name, displayname, email=None, phone=None, fax=None,
 
     escape = _escape_vcard
     data = ['BEGIN:VCARD', 'VERSION:3.0',
-            f'N:{name}',
+            f'N:{str(name).translate(_VCARD_ESCAPE_NEWLINE)}',
             f'FN:{escape(displayname)}']
     if org:
         data.append(f'ORG:{escape(org)}')
